@@ -1,6 +1,165 @@
 package c08
 
-import "verifharness/core"
+import (
+	"fmt"
+	"math/rand"
+	"strings"
+	"sync"
+	"sync/atomic"
+	"time"
 
-// runLive is provided by the real-loop lab (see live_impl.go once built).
-var runLive = func(c *core.Ctx, r *core.Result) { r.Note("live part pending") }
+	"github.com/quickfixgo/quickfix"
+
+	"verifharness/core"
+	"verifharness/fixwire"
+	"verifharness/lab"
+	"verifharness/live"
+)
+
+// Live part: a real Acceptor on its own run loop; sender goroutines keep submitting application
+// messages across logon, logout, stop and repeated disconnects; a scripted peer connects several
+// times and ends each connection differently. The same automaton (live variant) judges the trace.
+func runLive(c *core.Ctx, r *core.Result) {
+	runs := c.N(12, 160)
+	sem := make(chan struct{}, 6)
+	var wg sync.WaitGroup
+	for i := 0; i < runs; i++ {
+		wg.Add(1)
+		sem <- struct{}{}
+		go func(i int) {
+			defer wg.Done()
+			defer func() { <-sem }()
+			liveRun(c, r, i, c.Rand("live", i))
+		}(i)
+	}
+	wg.Wait()
+}
+
+func logouts(rec *live.Recorder) int {
+	n := 0
+	for _, e := range rec.Events() {
+		if e.Kind == "OnLogout" {
+			n++
+		}
+	}
+	return n
+}
+
+func liveRun(c *core.Ctx, r *core.Result, idx int, rng *rand.Rand) {
+	rec := &live.Recorder{}
+	begin := core.Pick(rng, "FIX.4.2", "FIX.4.4")
+	tag := fmt.Sprintf("C08x%dx%d", idx, rng.Intn(1<<20))
+	var eng *live.Engine
+	var err error
+	port := 0
+	for try := 0; try < 3; try++ {
+		port = live.FreePort()
+		if eng, err = live.StartAcceptor(live.Options{Who: "engine", Begin: begin, Sender: "E" + tag, Target: "P" + tag, Port: port, R: rec}); err == nil {
+			break
+		}
+	}
+	if err != nil {
+		r.Inconcl("live run %d: cannot start acceptor: %v", idx, err)
+		return
+	}
+	stopped := false
+	defer func() {
+		if !stopped {
+			eng.Stop()
+		}
+	}()
+	r.Eval(1)
+	var stop int32
+	var wg sync.WaitGroup
+	for g := 0; g < 2; g++ {
+		wg.Add(1)
+		go func(g int) {
+			defer wg.Done()
+			for i := 0; atomic.LoadInt32(&stop) == 0; i++ {
+				_ = quickfix.SendToTarget(lab.AppMessage(fmt.Sprintf("s%d-%d", g, i)), eng.SID)
+				time.Sleep(time.Duration(1+i%7) * time.Millisecond)
+			}
+		}(g)
+	}
+	var path strings.Builder
+	conns := 1 + rng.Intn(3)
+	seq := 1
+	for cn := 0; cn < conns; cn++ {
+		rec.Add(lab.Event{Kind: "step", Detail: "connect"})
+		p, err := live.Dial(port, rec, begin, "P"+tag, "E"+tag)
+		if err != nil {
+			r.Inconcl("live run %d: %v", idx, err)
+			break
+		}
+		p.SetNext(seq)
+		before := logouts(rec)
+		p.Logon(30)
+		if _, ok := p.WaitFor(live.IsType("A"), 15*time.Second); !ok {
+			r.Inconcl("live run %d: no Logon reply on connection %d", idx, cn+1)
+			p.Close()
+			break
+		}
+		for k := rng.Intn(6); k > 0; k-- {
+			body := fixwire.Fields{lab.F(11, fmt.Sprintf("i%d", k)), lab.F(21, "1"), lab.F(55, "IBM"), lab.F(54, "1"), lab.F(60, "20260925-10:00:00"), lab.F(38, "1"), lab.F(40, "1")}
+			p.Msg("D", 0, nil, body)
+			time.Sleep(time.Duration(rng.Intn(30)) * time.Millisecond)
+		}
+		time.Sleep(time.Duration(50+rng.Intn(300)) * time.Millisecond)
+		ending := core.Pick(rng, "peer-logout", "abrupt", "abrupt-mid-traffic")
+		if cn == conns-1 && rng.Intn(2) == 0 {
+			ending = "engine-stop"
+		}
+		path.WriteString(ending + "|")
+		switch ending {
+		case "peer-logout":
+			p.Msg("5", 0, nil, nil)
+			p.WaitFor(live.IsType("5"), 10*time.Second)
+			seq = p.Next()
+			p.Close()
+		case "abrupt", "abrupt-mid-traffic":
+			if ending == "abrupt-mid-traffic" {
+				for k := 0; k < 20; k++ {
+					body := fixwire.Fields{lab.F(11, fmt.Sprintf("m%d", k)), lab.F(21, "1"), lab.F(55, "IBM"), lab.F(54, "1"), lab.F(60, "20260925-10:00:00"), lab.F(38, "1"), lab.F(40, "1")}
+					p.Msg("D", 0, nil, body)
+				}
+			}
+			seq = p.Next()
+			p.Close()
+		case "engine-stop":
+			stopped = true
+			eng.Stop()
+			p.Close()
+		}
+		// the engine must notice the end of the connection before the next one is offered
+		deadline := time.Now().Add(15 * time.Second)
+		for logouts(rec) == before && time.Now().Before(deadline) {
+			time.Sleep(10 * time.Millisecond)
+		}
+		if logouts(rec) == before {
+			r.Inconcl("live run %d: no logout notification within 15 s after connection %d ended (%s)", idx, cn+1, ending)
+		}
+		if stopped {
+			break
+		}
+	}
+	atomic.StoreInt32(&stop, 1)
+	wg.Wait()
+	if !stopped {
+		stopped = true
+		eng.Stop()
+	}
+	time.Sleep(20 * time.Millisecond)
+	rec.Add(lab.Event{Kind: "step", Detail: "end of run"})
+	viol, stats := automaton(rec.Events(), true)
+	for k, v := range stats {
+		r.Count("live."+k, v)
+	}
+	if stats["logged_on_periods"] > 0 {
+		r.Nontrivial("live|" + path.String())
+	}
+	for _, v := range viol {
+		cls := v[:strings.Index(v, ":")]
+		r.Violate("C08/live/"+cls, v+fmt.Sprintf("; real run loop, connections ending %s, two goroutines sending throughout", path.String()), map[string]interface{}{"run": idx, "violation": v, "endings": path.String()})
+		break
+	}
+}
